@@ -215,6 +215,77 @@ pub fn c11_simultaneous_dial<S: Src, const F: u8>(s: &mut S) {
     std::mem::forget(y);
 }
 
+/// Family F: crossing dials where OUR dial is the one that loses — and then fails on its own (the request is lost, the
+/// connection breaks: anything but the remote's AlreadySyncing) — while the session we ACCEPTED is still running; sync reports
+/// may be refused during that session.  X is the node that accepts (ids symbolic, constrained so that the tie-break lets it).
+///   * the failure of X's own dial must not free the pair's slot: the accepted session is still in progress;
+///   * a refused report leads to exactly one follow-up dial, made when the session that caused the refusal FINISHES (live.rs
+///     starts the follow-up as soon as `finish` reports it) — not earlier, while that session still runs and the remote can
+///     only decline it;
+///   * the finish of the accepted session is acknowledged (it is what produces the SyncFinished event).
+pub fn c11_crossing_failed_dial<S: Src>(s: &mut S) {
+    let ns = NamespaceId::from(&[1u8; 32]);
+    let (idx, idy) = two_ids(s);
+    let mut x = Node { id: idx, peer: fresh_peer(ns) };
+    let mut y = Node { id: idy, peer: fresh_peer(ns) };
+    let (r1, r2) = (any_reason(s), any_reason(s));
+    ck!(s, x.peer.start_connect(r1) && y.peer.start_connect(r2), "idle slots let both dials start");
+    // Y's request reaches X while X is dialing: the tie-break decides; this family is about the accepting node
+    let o = x.peer.accept_request(&x.id, &y.id);
+    s.assume(matches!(o, AcceptOutcome::Allow));
+    ck!(s, running_accept(&x.peer), "an accepted request marks the slot busy");
+    // sync reports refused at X during the accepted session, before and / or after X's own dial fails
+    let report_before = s.bool();
+    let report_after = s.bool();
+    let mut refused = 0u8;
+    let mut followups_during_session = 0u8;
+    if report_before {
+        if !x.peer.start_connect(SyncReason::SyncReport) {
+            refused += 1;
+        } else {
+            followups_during_session += 1;
+        }
+    }
+    // X's own dial ends: lost / connection error (NOT RemoteAbort(AlreadySyncing))
+    // (`finish` only stores the result; which handler branch runs is decided by the error variant: here any but AlreadySyncing)
+    let rx = result(s, ns, y.id);
+    let fx = dial_ends(&mut x, r1, false, rx);
+    if fx == Some(true) {
+        // live.rs on_sync_finished: `if resync { sync_with_peer(.., Resync) }`
+        if x.peer.start_connect(SyncReason::Resync) {
+            followups_during_session += 1;
+        }
+    }
+    ck!(s, !is_idle(&x.peer) || followups_during_session > 0, "the failure of a node's own losing dial does not free the slot of the session it accepted, which is still in progress");
+    if report_after {
+        if !x.peer.start_connect(SyncReason::SyncReport) {
+            refused += 1;
+        } else {
+            followups_during_session += 1;
+        }
+    }
+    ck!(s, followups_during_session == 0, "no dial (follow-up or new) is started for the pair while the accepted session is still in progress");
+    // the accepted session finishes at X
+    let ra = result(s, ns, y.id);
+    let fa = x.peer.finish(&Origin::Accept, ra).map(|(_, r)| r);
+    cv!(s, refused > 0, "c11_crossing_failed_dial: a report was refused during the accepted session");
+    cv!(s, refused == 0, "c11_crossing_failed_dial: no report");
+    ck!(s, fa.is_some(), "the end of a session that ran is acknowledged (SyncFinished is emitted for it)");
+    ck!(s, fa != Some(false) || refused == 0 || followups_during_session > 0, "a report refused during a session leads to a follow-up dial when that session finishes");
+    ck!(s, fa != Some(true) || refused > 0, "no follow-up dial without a refused report");
+    // Y's side: its dial was accepted; it finishes too; X's follow-up (if any) then runs like any dial
+    let ry = result(s, ns, x.id);
+    let _ = dial_ends(&mut y, r2, false, ry);
+    if fa == Some(true) {
+        ck!(s, x.peer.start_connect(SyncReason::Resync), "the follow-up dial starts");
+        let r3 = result(s, ns, y.id);
+        let _ = dial_ends(&mut x, SyncReason::Resync, false, r3);
+    }
+    ck!(s, is_idle(&x.peer) && is_idle(&y.peer), "once nothing is in flight both nodes are idle for each other");
+    std::mem::forget(x);
+    std::mem::forget(y);
+}
+
 /// Family C: X dials Y, the session runs, X's end finishes first and X immediately dials again
 /// (new sync report / resync) while Y has not yet finished its end.
 pub fn c11_redial_race<S: Src, const Y_FINISHED_FIRST: bool>(s: &mut S) {
